@@ -146,21 +146,43 @@ def gen_sched_case(rng):
     a, b = pts[k], pts[k + 1]
     slm_end = rng.choice([0.0, a, b, (a + b) / 2, a + (b - a) / 4, a + 3 * (b - a) / 4, pts[1] / 2, pts[1] / 4, pts[-1], pts[-1] + 5.0])
     backend = rng.choice(T_BACKENDS)
+    nq = rng.choice([2, 3]) if backend == "sv" else rng.choice([2, 3, 4])
+    # state-preparation error: the dark-atom filter is installed (also with an all-False mask)
+    bad = None
+    if rng.random() < 0.6:
+        max_bad = nq - 1 if backend == "sv" else nq - 2       # emu-mps needs two surviving atoms
+        nb = rng.choice([0, 0, 1, 2])
+        bad = [False] * nq
+        for i in rng.sample(range(nq), min(nb, max(max_bad, 0))):
+            bad[i] = True
     return dict(grid=pts, slm_end=slm_end, backend=backend, obs0=rng.random() < 0.5,
-                reorder=(backend != "sv" and rng.random() < 0.07), nq=rng.choice([2, 3]) if backend != "sv" else 2)
+                reorder=(backend != "sv" and bad is None and rng.random() < 0.07), nq=nq, bad=bad,
+                slm_target=rng.randrange(nq))
 
 
 T_BACKENDS = ["sv", "mps", "dmrg"]
 
 
-def run_sched(c):
+def sched_mats(c):
+    """full / masked matrices of a schedule case (distinct dyadic entries, differences >= 1)."""
     import torch
+    nq = c["nq"]
+    full = torch.zeros(nq, nq, dtype=torch.float64)
+    for i in range(nq):
+        for j in range(i):
+            full[i, j] = full[j, i] = float(4 + 2 * i + j)
+    masked = full.clone()
+    t = c.get("slm_target", 0)
+    masked[t] = 0.0
+    masked[:, t] = 0.0
+    return full, masked
+
+
+def run_sched(c):
+    """Returns (query times, [matrix used in step k as nested lists])."""
     from pulser.backend import Occupation
     nq = c["nq"]
-    full = torch.ones(nq, nq, dtype=torch.float64) * 4.0 - 4.0 * torch.eye(nq, dtype=torch.float64)
-    masked = full.clone()
-    masked[0] = 0.0
-    masked[:, 0] = 0.0
+    full, masked = sched_mats(c)
     obs = [Occupation(evaluation_times=[0.0, 1.0] if c["obs0"] else [1.0])]
     kw = {}
     if c["backend"] != "sv":
@@ -171,25 +193,47 @@ def run_sched(c):
     cc = dict(dflt=[(1, 1.0)], dt=1.0)
     cfg = T.make_config(cc, "sv" if c["backend"] == "sv" else "mps", obs, **kw)
     tt = c["grid"]
-    data = T.zero_data(len(tt) - 1, nq, tt, U=full, masked_U=masked, slm_end=c["slm_end"])
+    bad = c.get("bad")
+    data = T.zero_data(len(tt) - 1, nq, tt, U=full, masked_U=masked, slm_end=c["slm_end"],
+                       bad_atoms=bad, state_prep_error=(0.1 if bad is not None else 0.0))
     res, log = T.run_stubbed(c["backend"], data, cfg)
-    used = []
-    for m in log["step_mats"]:
-        used.append(bool((m + torch.eye(nq, dtype=m.dtype)).eq(0).any()))        # a zero off the diagonal = masked
-    return log["queries"], used
+    return log["queries"], [m.tolist() for m in log["step_mats"]]
+
+
+def expected_step_mats(c):
+    """C23 for the matrix used in each step: masked before the SLM end (at the back-end's query time), full
+    afterwards; rows/columns of badly prepared atoms zero (emu-sv) or removed (emu-mps), at EVERY step."""
+    tt, e, nq = c["grid"], c["slm_end"], c["nq"]
+    full, masked = sched_mats(c)
+    bad = c.get("bad")
+    out = []
+    for k in range(len(tt) - 1):
+        q = tt[k] if (c["backend"] == "sv" or k > 0) else 0.5 * (0.0 + tt[1])
+        m = (masked if q < e else full).clone()
+        if bad is not None:
+            if c["backend"] == "sv":
+                for i in range(nq):
+                    if bad[i]:
+                        m[i] = 0.0
+                        m[:, i] = 0.0
+            else:
+                keep = [i for i in range(nq) if not bad[i]]
+                m = m[keep][:, keep]
+        out.append((q, m.tolist()))
+    return out
 
 
 def sched_oracle(c, queries, used):
-    tt, e = c["grid"], c["slm_end"]
-    if c["backend"] == "dmrg":
+    if c["backend"] == "dmrg" or c["reorder"]:
         return None
-    if len(used) != len(tt) - 1:
-        return f"{len(used)} steps recorded for {len(tt) - 1} intervals"
-    for k, u in enumerate(used):
-        q = tt[k] if (c["backend"] == "sv" or k > 0) else 0.5 * (0.0 + tt[1])
-        if u != (q < e):
-            return (f"step {k} [{tt[k]}, {tt[k + 1]}] used the {'masked' if u else 'full'} matrix; SLM ends at {e}, "
-                    f"the {c['backend']} back-end queries at {q}")
+    exp = expected_step_mats(c)
+    if len(used) != len(exp):
+        return f"{len(used)} steps recorded for {len(exp)} intervals"
+    tt = c["grid"]
+    for k, (u, (q, m)) in enumerate(zip(used, exp)):
+        if u != m:
+            return (f"step {k} [{tt[k]}, {tt[k + 1]}] of {c['backend']} used the matrix {u}; SLM ends at {c['slm_end']}, "
+                    f"query time {q}, bad atoms {c.get('bad')}: expected {m}")
     return None
 
 
@@ -212,6 +256,16 @@ def sched_correspondence(rep, rng, n):
             lines.append(f"ia.mps {f2b(0.5)} {lst(f2b(x) for x in tt)} {len(tt) - 1} {int(c['reorder'])}")
         expect.append(lst(f2b(x) for x in queries))
         meta.append(c)
+        if c["backend"] != "dmrg" and not c["reorder"]:
+            full, masked = sched_mats(c)
+            bad = c.get("bad")
+            lines.append(f"ia.steps {'sv' if c['backend'] == 'sv' else 'mps'} {f2b(0.5)} {c['nq']} "
+                         f"{lst(f2b(x) for x in full.flatten().tolist())} {lst(f2b(x) for x in masked.flatten().tolist())} "
+                         f"{f2b(c['slm_end'])} {'N' if bad is None else lst(str(int(b)) for b in bad)} {len(tt) - 1} "
+                         f"{lst(f2b(x) for x in tt)}")
+            expect.append(";".join(lst(f2b(x) for row in m for x in row) for m in used))
+            meta.append(c)
+        rep.hist("dark_filter", "none" if c.get("bad") is None else f"{sum(c['bad'])} bad")
         rep.hist("sched_backend", c["backend"])
         k = next((i for i in range(len(tt) - 1) if tt[i] < c["slm_end"] <= tt[i + 1]), None)
         rep.hist("slm_end_position", "none/outside" if k is None else ("first step" if k == 0 else "later step")
@@ -225,14 +279,16 @@ def check(rep: Report, tier: str, seed: int) -> None:
                 "and off the entry magnitudes (ties), 0..3 SLM targets (with repeats), SLM end, five query times incl. "
                 "t = slm_end and slm_end ± 0.5; (b) schedule cases = random half-ns grids, SLM end at step boundaries, "
                 "mid-points, quarter points, inside the first step, beyond the end; emu-sv / TDVP / DMRG, with and without an "
-                "observable at t=0 and qubit reordering. non-trivial = all; distinct = distinct driver lines")
+                "observable at t=0, qubit reordering, and state_prep_error > 0 with bad-atom masks (all False, 1-2 True); the "
+                "matrix handed to the stepper is compared at EVERY step. non-trivial = all; distinct = distinct driver lines")
     rep.assumptions = [
         "register matrices (symmetry, zero diagonal, values) are pulser's; zero diagonal is inherited, not enforced",
         "PulserData.__init__ is bypassed (cannot run under pulser-core 1.9.1): full_interaction_matrix, interaction_cutoff, "
         "slm_end_time, _sequence._slm_mask_targets are set directly",
         "emu-mps keeps its previous Hamiltonian when the new matrix is allclose(atol=1e-10, rtol=1e-8) to the old one: an "
         "SLM mask that changes interactions by less than that is not applied on time (not exercised: test matrices differ by 4)",
-        "DMRG runs only compare the query times (no per-step matrix is recorded by the stub)",
+        "DMRG runs and runs with qubit reordering only compare the query times (no per-step matrix is compared)",
+        "state_prep_error > 0 runs use hand-set bad_atoms masks (all False, one or two True); emu-mps keeps >= 2 good atoms",
     ]
     T.compat.install()
     lean_stage(rep, PROP_MODULE, AUDIT, thorough=(tier == "thorough"))
